@@ -10,7 +10,7 @@ ROOT = "/verif"
 WORK = f"{ROOT}/typestate/work"
 TIER = os.environ.get("VERIF_TIER", "quick")
 SEED = int(os.environ.get("VERIF_SEED", "0") or 0)
-CAPABILITY = {"E0599", "E0608", "E0614", "E0596", "E0594", "E0277", "E0308", "E0382", "E0505", "E0507", "E0282", "E0283"}
+CAPABILITY = {"E0599", "E0369", "E0608", "E0614", "E0596", "E0594", "E0277", "E0308", "E0382", "E0505", "E0507", "E0282", "E0283"}
 STALE = {"E0432", "E0433", "E0412", "E0425", "E0061", "E0603", "E0407", "E0437"}
 
 CONTAINERS = {
@@ -45,6 +45,13 @@ OPS = {
     "write:fill":        (f"p.fill(3);", True),
     "array:as_array":    (f"let a: &[u8; 32] = p.as_array(); {BB}(a[31]);", False),
     "array:as_mut_array":(f"let a: &mut [u8; 32] = p.as_mut_array(); a[31] = 1;", True),
+    # byte views offered through trait implementations rather than inherent methods
+    "view:serde_json":   (f"let v = serde_json::to_vec(&p).unwrap(); {BB}(v);", False),
+    "view:bincode":      (f"let v = bincode::serialize(&p).unwrap(); {BB}(v);", False),
+    "view:debug":        (f"let s = format!(\"{{:?}}\", p); {BB}(s);", False),
+    "view:eq":           (f"{BB}(p == p);", False),
+    "view:to_vec":       (f"let v: Vec<u8> = p.to_vec(); {BB}(v);", False),
+    "view:iter":         (f"let n: u32 = p.iter().map(|b| *b as u32).sum(); {BB}(n);", False),
     "resize":            (f"p.resize(64, 0);", True),
     "clone":             (f"let q = p.clone(); {BB}(&q);", False),
     "t:mlock":           (f"let q = p.mlock().unwrap(); {BB}(&q);", False),
@@ -61,6 +68,10 @@ def expectation(cont, state, op):
     p, lk = pm(state), locked(state)
     if op.startswith("read:"):
         return "reject" if p == "NA" else "accept"
+    if op.startswith("view:"):
+        # any byte view of a no-access region must be rejected; whether the other states offer
+        # this particular trait is not in the statement (if offered it must not fault)
+        return "reject" if p == "NA" else "unspecified"
     if op.startswith("write:"):
         return "accept" if p == "RW" else "reject"
     if op == "array:as_array":
@@ -126,7 +137,7 @@ def write_crate(name, progs, is_bin):
     os.makedirs(f"{d}/src", exist_ok=True)
     os.makedirs(f"{d}/.cargo", exist_ok=True)
     open(f"{d}/.cargo/config.toml", "w").write("[net]\noffline = true\n")
-    open(f"{d}/Cargo.toml", "w").write(f"[package]\nname = \"{name}\"\nversion = \"0.0.0\"\nedition = \"2021\"\npublish = false\n\n[dependencies]\ndryoc = {{ path = \"/repo\", features = [\"nightly\"] }}\nlibc = \"0.2\"\n\n[workspace]\n")
+    open(f"{d}/Cargo.toml", "w").write(f"[package]\nname = \"{name}\"\nversion = \"0.0.0\"\nedition = \"2021\"\npublish = false\n\n[dependencies]\ndryoc = {{ path = \"/repo\", features = [\"nightly\", \"serde\"] }}\nlibc = \"0.2\"\nserde_json = \"1\"\nbincode = \"1\"\n\n[workspace]\n")
     if not os.path.exists(f"{d}/Cargo.lock"):
         shutil.copy("/repo/Cargo.lock", f"{d}/Cargo.lock")
     keep = set()
@@ -266,7 +277,7 @@ def main():
               coverage=dict(states=states, transitions=len(progs), traces_validated_against_impl=len(rej) + len(uns) + len(acc) + len(runs),
                             samples=[dict(cell=p["id"], expect=p["expect"], program=p["body"]) for p in (rej[:1] + acc[:1] + rej[-1:])],
                             exhaustive=True, evaluations=len(progs), distinct_nontrivial=len(rej) + len(acc),
-                            rule="one generated program per cell of the permission table (2 containers x 5 type-states x 21 operations + use-after/use-result for every consuming transition + 8 stream cells); must-reject cells: rustc must report >= 1 error of a capability class; must-accept cells: compile and run in a forked child with exit 0 and no signal; unspecified cells are recorded, and those the compiler accepts are also run (a signal is a violation, an Err-unwrap exit is not)",
+                            rule="one generated program per cell of the permission table (2 containers x 5 type-states x 27 operations (incl. byte views through Serialize (JSON, bincode), Debug, PartialEq, to_vec and iter) + use-after/use-result for every consuming transition + 8 stream cells); must-reject cells: rustc must report >= 1 error of a capability class; must-accept cells: compile and run in a forked child with exit 0 and no signal; unspecified cells are recorded, and those the compiler accepts are also run (a signal is a violation, an Err-unwrap exit is not)",
                             cells=dict(must_reject=len(rej), must_accept=len(acc), unspecified=len(uns)), programs_run=len(runs),
                             reject_error_classes=classes, unspecified_verdicts=unspecified_verdicts, known_findings_matched=list(known_hit)),
               assumptions=["rustc (nightly) is the oracle for compile-time rejection; error classes distinguish a missing capability from a stale template",
